@@ -758,3 +758,137 @@ Proof.
   - intros c Hc K. apply same_kn_true in K.
     rewrite (proj1 (spec_latest_none hs k n) L c Hc) in K. discriminate.
 Qed.
+
+(* ------------------------------------------------------------------ texts with several modules *)
+
+Lemma add_loaded : forall st h,
+  Loaded (fst (add st h)) = if snd (add st h) then mset (Loaded st) (lkey (h_kind h) (FullName h)) h else Loaded st.
+Proof.
+  intros st h. unfold add. destruct (mget (Loaded st) (lkey (h_kind h) (FullName h))); reflexivity.
+Qed.
+
+Lemma add_verdict : forall st h,
+  snd (add st h) = match mget (Loaded st) (lkey (h_kind h) (FullName h)) with Some _ => false | None => true end.
+Proof. intros st h. unfold add. destruct (mget (Loaded st) (lkey (h_kind h) (FullName h))); reflexivity. Qed.
+
+Lemma add_all_ok : forall hs st0 st seen,
+  check_text st0 seen hs = true ->
+  (forall k, mget (Loaded st) k <> None -> mget (Loaded st0) k <> None \/ existsb (str_eqb k) seen = true) ->
+  snd (add_all st hs) = true.
+Proof.
+  induction hs as [|h t IH]; intros st0 st seen C I; [reflexivity|].
+  cbn [check_text] in C. set (key := lkey (h_kind h) (FullName h)) in *.
+  destruct (mget (Loaded st0) key) eqn:L0; [discriminate|].
+  destruct (existsb (str_eqb key) seen) eqn:Es; [discriminate|].
+  cbn [add_all]. pose proof (add_verdict st h) as V. pose proof (add_loaded st h) as Ld. fold key in V, Ld.
+  destruct (mget (Loaded st) key) eqn:L.
+  - exfalso. destruct (I key) as [A|A]; [rewrite L; discriminate|congruence|congruence].
+  - destruct (add st h) as [st1 ok]. cbn [fst snd] in *. subst ok. 
+    apply (IH st0 st1 (key :: seen) C). intros k Hk. rewrite Ld, mget_mset in Hk.
+    cbn [existsb]. destruct (str_eqb key k) eqn:E.
+    + right. rewrite str_eqb_eq in E. subst k. rewrite str_eqb_refl. reflexivity.
+    + destruct (I k Hk) as [A|A]; [left; exact A|right; rewrite A; apply orb_true_r].
+Qed.
+
+Lemma add_all_run : forall hs st, snd (add_all st hs) = true ->
+  fst (add_all st hs) = fst (run_with add st hs) /\ forallb (fun b => b) (snd (run_with add st hs)) = true.
+Proof.
+  induction hs as [|h t IH]; intros st H; [split; reflexivity|].
+  cbn [add_all run_with] in *. destruct (add st h) as [st1 ok]. destruct ok; [|discriminate].
+  destruct (IH st1 H) as [A B]. destruct (run_with add st1 t) as [st2 oks]. cbn [fst snd] in *. auto.
+Qed.
+
+(* atomicity: a rejected text leaves the module set exactly as it was *)
+Theorem parse_text_atomic : forall st hs, snd (parse_text st hs) = false -> fst (parse_text st hs) = st.
+Proof.
+  intros st hs H. unfold parse_text in *. destruct (check_text st [] hs) eqn:C; [|reflexivity].
+  rewrite (add_all_ok hs st st [] C) in H; [discriminate|]. intros k Hk. left. exact Hk.
+Qed.
+
+(* an accepted text is the same as adding its statements one after the other, all accepted *)
+Theorem parse_text_accepted : forall st hs, snd (parse_text st hs) = true ->
+  fst (parse_text st hs) = fst (run_with add st hs) /\
+  forallb (fun b => b) (snd (run_with add st hs)) = true.
+Proof.
+  intros st hs H. unfold parse_text in *. destruct (check_text st [] hs) eqn:C; [|discriminate].
+  apply add_all_run. exact H.
+Qed.
+
+Lemma parse_text_verdict : forall st hs, snd (parse_text st hs) = check_text st [] hs.
+Proof.
+  intros st hs. unfold parse_text. destruct (check_text st [] hs) eqn:C; [|reflexivity].
+  apply (add_all_ok hs st st [] C). intros k Hk. left. exact Hk.
+Qed.
+
+Lemma check_text_perm : forall st hs s1 s2, (forall k, existsb (str_eqb k) s1 = existsb (str_eqb k) s2) ->
+  check_text st s1 hs = check_text st s2 hs.
+Proof.
+  intros st. induction hs as [|x hs IH]; intros s1 s2 Hs; [reflexivity|]. cbn [check_text].
+  destruct (mget (Loaded st) _); [reflexivity|]. rewrite (Hs _).
+  destruct (existsb _ s2); [reflexivity|]. apply IH. intros k. cbn [existsb]. rewrite Hs. reflexivity.
+Qed.
+
+Lemma check_text_spec : forall hs st prev seen,
+  names_ok hs = true -> names_ok seen = true -> InvL (Loaded st) prev ->
+  check_text st (map (fun h => lkey (h_kind h) (FullName h)) seen) hs = text_ok_from prev seen hs.
+Proof.
+  induction hs as [|h t IH]; intros st prev seen Hn Hs IL; [reflexivity|].
+  cbn [names_ok forallb] in Hn. apply andb_true_iff in Hn. destruct Hn as [Hh Ht].
+  cbn [check_text text_ok_from]. rewrite FullName_fn, (IL (h_kind h) (h_name h) (cur h) Hh).
+  unfold spec_ok. rewrite existsb_app.
+  change (List.find (is_knr (h_kind h) (h_name h) (cur h)) prev) with (List.find (same_key h) prev).
+  rewrite (existsb_find _ (same_key h) prev).
+  destruct (List.find (same_key h) prev); [reflexivity|]. cbn [orb].
+  assert (E : existsb (str_eqb (lkey (h_kind h) (fn (h_name h) (cur h))))
+                (map (fun x => lkey (h_kind x) (FullName x)) seen) = existsb (same_key h) seen).
+  { clear -Hh Hs. induction seen as [|x seen IHs]; [reflexivity|].
+    cbn [names_ok forallb] in Hs. apply andb_true_iff in Hs. destruct Hs as [Hx Hs'].
+    cbn [map existsb]. rewrite (IHs Hs'). f_equal. rewrite FullName_fn.
+    destruct (same_key h x) eqn:K.
+    - apply is_knr_true in K. destruct K as (K1 & K2 & K3). rewrite K1, K2, K3. apply str_eqb_refl.
+    - apply str_eqb_neq. intros C. apply lkey_inj in C. destruct C as [C1 C2].
+      apply fn_inj in C2; auto. destruct C2 as [C2 C3].
+      assert (same_key h x = true); [|congruence]. apply is_knr_true. auto. }
+  rewrite E. destruct (existsb (same_key h) seen); [reflexivity|]. cbn [negb andb].
+  assert (Hsn : names_ok (seen ++ [h]) = true).
+  { unfold names_ok. rewrite forallb_app. cbn [forallb]. rewrite Hh. unfold names_ok in Hs. rewrite Hs. reflexivity. }
+  rewrite <- (IH st prev (seen ++ [h]) Ht Hsn IL). rewrite map_app. cbn [map]. rewrite FullName_fn.
+  apply check_text_perm. intros k. rewrite existsb_app. cbn [existsb]. rewrite orb_false_r. apply orb_comm.
+Qed.
+
+(* load histories made of texts: every verdict is the specified one, and the final module set
+   is that of the accepted headers loaded one by one *)
+Theorem parse_texts_spec : forall texts prev st,
+  names_ok (concat texts) = true -> InvSt st prev ->
+  snd (parse_texts st texts) = spec_texts prev texts /\
+  InvSt (fst (parse_texts st texts)) (accepted_headers prev texts).
+Proof.
+  induction texts as [|hs rest IH]; intros prev st Hn I; [split; [reflexivity|exact I]|].
+  cbn [concat] in Hn. unfold names_ok in Hn. rewrite forallb_app in Hn. apply andb_true_iff in Hn.
+  destruct Hn as [Hh Hr]. cbn [parse_texts spec_texts accepted_headers].
+  pose proof (parse_text_verdict st hs) as V. pose proof (parse_text_atomic st hs) as At.
+  pose proof (parse_text_accepted st hs) as Ac.
+  destruct I as (IM & IS & IL).
+  pose proof (check_text_spec hs st prev [] Hh eq_refl IL) as CS. cbn [map] in CS. rewrite CS in V.
+  fold (text_ok prev hs) in V.
+  destruct (parse_text st hs) as [st1 ok]. cbn [fst snd] in *. subst ok.
+  destruct (text_ok prev hs) eqn:T.
+  - destruct (Ac eq_refl) as [E _]. subst st1.
+    destruct (run_from_spec hs prev st Hh (conj IM (conj IS IL))) as [I1 _].
+    destruct (IH (prev ++ hs) _ Hr I1) as [A B].
+    destruct (parse_texts (fst (run_with add st hs)) rest) as [st2 oks]. cbn [fst snd] in *. split; [congruence|exact B].
+  - rewrite (At eq_refl). destruct (IH prev st Hr (conj IM (conj IS IL))) as [A B].
+    destruct (parse_texts st rest) as [st2 oks]. cbn [fst snd] in *. split; [congruence|exact B].
+Qed.
+
+Corollary parse_texts_find : forall texts k n rev,
+  names_ok (concat texts) = true -> at_free n = true ->
+  snd (parse_texts NewModules texts) = spec_texts [] texts /\
+  Registry.find (fst (parse_texts NewModules texts)) k n rev = spec_find (accepted_headers [] texts) k n rev.
+Proof.
+  intros texts k n rev Hn Hk. destruct (parse_texts_spec texts [] NewModules Hn InvSt_init) as [A B].
+  split; [exact A|]. pose proof (sel_inv _ _ k B) as [Ia Ib].
+  unfold Registry.find, spec_find, spec_latest, spec_exact. destruct rev as [r|].
+  - rewrite (Ia n r Hk), (Ib n Hk). destruct (is_empty r); [|reflexivity]. destruct (latest _); reflexivity.
+  - rewrite (Ib n Hk). destruct (latest _); reflexivity.
+Qed.
